@@ -324,7 +324,8 @@ fn arb_arith() -> impl Strategy<Value = i32> {
     prop::sample::select(vec![0, 1, 7, 10, 11, 101, 110, -1, -11, -101])
 }
 
-const VAL_ALPHA: [char; 9] = ['a', 'b', ' ', '\t', '\n', ':', '*', '\\', '-'];
+// two multi-byte characters: ${#x} counts characters, the trims cut at character boundaries
+const VAL_ALPHA: [char; 11] = ['a', 'b', ' ', '\t', '\n', ':', '*', '\\', '-', 'é', 'あ'];
 
 fn arb_value() -> impl Strategy<Value = String> {
     prop::collection::vec(prop::sample::select(VAL_ALPHA.to_vec()), 0..5).prop_map(|v| v.into_iter().collect())
@@ -376,7 +377,7 @@ fn arb_name() -> impl Strategy<Value = Name> {
 fn arb_inner_units(dq: bool) -> impl Strategy<Value = Vec<Unit>> {
     let simple_param = prop::sample::select(vec!["a", "b", "c"])
         .prop_map(|n| Unit::Param(Param { name: var(n), form: Form::Plain(false) }));
-    let lit = prop::sample::select(vec!['a', 'b', ' ', ':', '*', '-', '?']).prop_map(Unit::Lit);
+    let lit = prop::sample::select(vec!['a', 'b', ' ', ':', '*', '-', '?', 'é', '*', '?']).prop_map(Unit::Lit);
     if dq {
         prop::collection::vec(prop_oneof![4 => lit, 1 => simple_param], 0..4).boxed()
     } else {
